@@ -1,16 +1,18 @@
 (* C13 — all CLI views of pending work agree; history is append-only.
    Pinned statements only: each theorem is closed by [exact] of a lemma proved in Proofs/.
    Status per statement: (P) proved for all projects; (R) refuted on a concrete witness by computation —
-   (D6, D7, the pattern overwrite and the version reuse were repaired in /repo: their former refutations are now positive theorems) —
+   (D6, D7, D8, the pattern overwrite, the version reuse and the unchecked enum fill value were repaired in /repo: their
+   former refutations are now positive theorems; the only (R) left concerns hand-written history files) —
    each (R) witness is replayed on the real binary by checks/c13.py (corpus/cli/c13_*.json). *)
-From VV.CLI Require Import Project ProjectP NamingP HistoryP.
+From VV.M1 Require Import Oracles PrefixHyp PrefixP PrefixApplyP.
+From VV.CLI Require Import Project ProjectP NamingP HistoryP SqlPrefixP.
 
 (* ------------------------------------------------------------------ (P) diff <-> revision *)
 Theorem C13_diff_iff_revision : forall P m f env,
   ((exists acts, cmd_diff P = Ok (DiffChanges acts)) <->
    (exists o, cmd_revision P m f env = Ok o /\
               (o = RevRefused \/ o = RevNeedsTty \/ o = RevRefusedVersion \/ o = RevRefusedExists
-               \/ exists file p, o = RevWrote file p)))
+               \/ (exists e, o = RevRefusedInvalid e) \/ exists file p, o = RevWrote file p)))
   /\ (cmd_diff P = Ok DiffNone <-> cmd_revision P m f env = Ok RevNothing)
   /\ (forall e, cmd_diff P = Err e <-> cmd_revision P m f env = Err e)
   /\ (re_tty env = true -> cmd_revision P m f env <> Ok RevNeedsTty).
@@ -20,7 +22,7 @@ Check C13_diff_iff_revision : forall P m f env,
   ((exists acts, cmd_diff P = Ok (DiffChanges acts)) <->
    (exists o, cmd_revision P m f env = Ok o /\
               (o = RevRefused \/ o = RevNeedsTty \/ o = RevRefusedVersion \/ o = RevRefusedExists
-               \/ exists file p, o = RevWrote file p)))
+               \/ (exists e, o = RevRefusedInvalid e) \/ exists file p, o = RevWrote file p)))
   /\ (cmd_diff P = Ok DiffNone <-> cmd_revision P m f env = Ok RevNothing)
   /\ (forall e, cmd_diff P = Err e <-> cmd_revision P m f env = Err e)
   /\ (re_tty env = true -> cmd_revision P m f env <> Ok RevNeedsTty).
@@ -34,53 +36,92 @@ Example C13_diff_iff_revision_nonvacuous :
   /\ cmd_revision P_nullable "tighten" [] env0 = Ok RevNeedsTty.
 Proof. repeat split; vm_compute; reflexivity. Qed.
 
-(* ------------------------------------------------------------------ (P) sql renders diff, prefix = "" *)
-Theorem C13_sql_renders_diff : forall P,
-  pj_prefix P = "" ->
-  (cmd_diff P = Ok DiffNone <-> cmd_sql P = Ok SqlNone)
-  /\ (forall acts, cmd_diff P = Ok (DiffChanges acts) <-> exists v b, cmd_sql P = Ok (SqlRender v acts b)).
+(* ------------------------------------------------------------------ (P) sql renders diff, for every prefix (D8 repaired by 72fa6f0) *)
+(* ONE statement for every project and prefix: sql renders exactly the actions diff lists, table names prefixed, with
+   diff's version, against the replay of the prefixed history ([prefixed_baseline pfx plans]).
+   History: before 72fa6f0 the prefixed history was diffed against unprefixed models and prefixed again (P_prefix below:
+   diff empty, sql = CREATE TABLE app_user + DROP TABLE app_app_user); that behaviour is gone, see C13_sql_prefix_witness. *)
+Theorem C13_sql_renders_diff : forall P plans,
+  load_migrations P = Ok plans ->
+  (forall pb, prefixed_baseline (pj_prefix P) plans = Ok pb ->
+     (cmd_diff P = Ok DiffNone <-> cmd_sql P = Ok SqlNone)
+     /\ (forall acts, cmd_diff P = Ok (DiffChanges acts) ->
+           cmd_sql P = Ok (SqlRender (next_version plans) (map (action_with_prefix (pj_prefix P)) acts) pb))
+     /\ (forall v pacts b, cmd_sql P = Ok (SqlRender v pacts b) ->
+           exists acts, cmd_diff P = Ok (DiffChanges acts)
+                        /\ pacts = map (action_with_prefix (pj_prefix P)) acts /\ v = next_version plans /\ b = pb))
+  /\ (forall e, prefixed_baseline (pj_prefix P) plans = Err e -> (exists d, cmd_diff P = Ok d) -> cmd_sql P = Err (EBaseline e))
+  /\ ((exists e, cmd_diff P = Err e) -> exists e, cmd_sql P = Err e).
 Proof. exact sql_renders_diff. Qed.
 Print Assumptions C13_sql_renders_diff.
-Check C13_sql_renders_diff : forall P,
-  pj_prefix P = "" ->
-  (cmd_diff P = Ok DiffNone <-> cmd_sql P = Ok SqlNone)
-  /\ (forall acts, cmd_diff P = Ok (DiffChanges acts) <-> exists v b, cmd_sql P = Ok (SqlRender v acts b)).
+Check C13_sql_renders_diff : forall P plans,
+  load_migrations P = Ok plans ->
+  (forall pb, replay (map (plan_with_prefix (pj_prefix P)) plans) = Ok pb ->
+     (cmd_diff P = Ok DiffNone <-> cmd_sql P = Ok SqlNone)
+     /\ (forall acts, cmd_diff P = Ok (DiffChanges acts) ->
+           cmd_sql P = Ok (SqlRender (next_version plans) (map (action_with_prefix (pj_prefix P)) acts) pb))
+     /\ (forall v pacts b, cmd_sql P = Ok (SqlRender v pacts b) ->
+           exists acts, cmd_diff P = Ok (DiffChanges acts)
+                        /\ pacts = map (action_with_prefix (pj_prefix P)) acts /\ v = next_version plans /\ b = pb))
+  /\ (forall e, replay (map (plan_with_prefix (pj_prefix P)) plans) = Err e -> (exists d, cmd_diff P = Ok d) -> cmd_sql P = Err (EBaseline e))
+  /\ ((exists e, cmd_diff P = Err e) -> exists e, cmd_sql P = Err e).
 
 Example C13_sql_renders_diff_nonvacuous :
-  pj_prefix P_nullable = "" /\ exists b, cmd_sql P_nullable = Ok (SqlRender 2 [ModifyColumnNullable "user" "email" false None] b).
-Proof. split; [reflexivity|]. eexists. vm_compute. reflexivity. Qed.
+  exists plans pb, load_migrations P_nullable = Ok plans /\ prefixed_baseline (pj_prefix P_nullable) plans = Ok pb
+    /\ cmd_sql P_nullable = Ok (SqlRender 2 [ModifyColumnNullable "user" "email" false None] pb).
+Proof. do 2 eexists. split; [vm_compute; reflexivity|]. split; vm_compute; reflexivity. Qed.
 
-(* (P) any prefix, no stored migration: sql shows diff's actions with table names prefixed *)
-Theorem C13_sql_renders_prefixed_diff_without_history : forall P,
-  pj_migrations P = [] ->
-  (cmd_diff P = Ok DiffNone <-> cmd_sql P = Ok SqlNone)
-  /\ (forall acts, cmd_diff P = Ok (DiffChanges acts) ->
-        cmd_sql P = Ok (SqlRender 1 (map (action_with_prefix (pj_prefix P)) acts) [])).
-Proof. exact sql_renders_prefixed_diff_without_history. Qed.
-Print Assumptions C13_sql_renders_prefixed_diff_without_history.
-Check C13_sql_renders_prefixed_diff_without_history : forall P,
-  pj_migrations P = [] ->
-  (cmd_diff P = Ok DiffNone <-> cmd_sql P = Ok SqlNone)
-  /\ (forall acts, cmd_diff P = Ok (DiffChanges acts) ->
-        cmd_sql P = Ok (SqlRender 1 (map (action_with_prefix (pj_prefix P)) acts) [])).
+(* (P) the baseline sql renders against: the plain replay for the empty prefix, empty for an empty history ... *)
+Theorem C13_sql_baseline_plain : forall P plans,
+  load_migrations P = Ok plans ->
+  (pj_prefix P = "" -> prefixed_baseline (pj_prefix P) plans = replay plans)
+  /\ (pj_migrations P = [] -> prefixed_baseline (pj_prefix P) plans = Ok []).
+Proof. exact sql_baseline_plain. Qed.
+Print Assumptions C13_sql_baseline_plain.
+Check C13_sql_baseline_plain : forall P plans,
+  load_migrations P = Ok plans ->
+  (pj_prefix P = "" -> replay (map (plan_with_prefix (pj_prefix P)) plans) = replay plans)
+  /\ (pj_migrations P = [] -> replay (map (plan_with_prefix (pj_prefix P)) plans) = Ok []).
 
-Example C13_sql_without_history_nonvacuous :
-  exists cols ks,
-    cmd_diff (mkProject (pj_config P_prefix) (pj_models P_prefix) []) = Ok (DiffChanges [CreateTable "user" cols ks])
-    /\ cmd_sql (mkProject (pj_config P_prefix) (pj_models P_prefix) []) = Ok (SqlRender 1 [CreateTable "app_user" cols ks] []).
-Proof. do 2 eexists. split; vm_compute; reflexivity. Qed.
+(* (P) ... and in general the replayed history with every table name and foreign-key target literally prefixed, errors
+   included, under the side conditions of layer m1's equivariance theorem (no '.' in the prefix, inline foreign keys parse,
+   no user-chosen index name equal to a derived one) *)
+Theorem C13_sql_baseline_is_prefixed_baseline : forall p plans,
+  p <> "" -> no_dot p ->
+  forallb (fun pl => forallb inline_fks_parse (p_actions pl)) plans = true ->
+  side_all p [] (flat_map p_actions plans) = true ->
+  prefixed_baseline p plans = lift_apply p (replay plans).
+Proof. exact sql_baseline_is_prefixed_baseline. Qed.
+Print Assumptions C13_sql_baseline_is_prefixed_baseline.
+Check C13_sql_baseline_is_prefixed_baseline : forall p plans,
+  p <> "" -> no_dot p ->
+  forallb (fun pl => forallb inline_fks_parse (p_actions pl)) plans = true ->
+  side_all p [] (flat_map p_actions plans) = true ->
+  replay (map (plan_with_prefix p) plans)
+  = match replay plans with Ok s => Ok (literal_schema p s) | Err e => Err (literal_perr p e) end.
 
-(* (R) non-empty prefix and one stored migration: diff is empty, sql re-creates and drops (DESIGN D8) *)
-Theorem C13_sql_prefix_refuted :
-  exists P, pj_prefix P = "app_" /\ List.length (pj_models P) = 1%nat /\ List.length (pj_migrations P) = 1%nat
-            /\ cmd_diff P = Ok DiffNone
-            /\ exists v acts b, cmd_sql P = Ok (SqlRender v acts b) /\ acts <> [].
-Proof. exact sql_prefix_refuted. Qed.
-Print Assumptions C13_sql_prefix_refuted.
-Check C13_sql_prefix_refuted :
-  exists P, pj_prefix P = "app_" /\ List.length (pj_models P) = 1%nat /\ List.length (pj_migrations P) = 1%nat
-            /\ cmd_diff P = Ok DiffNone
-            /\ exists v acts b, cmd_sql P = Ok (SqlRender v acts b) /\ acts <> [].
+Example C13_sql_baseline_prefixed_nonvacuous :
+  no_dot "app_" /\ forallb (fun pl => forallb inline_fks_parse (p_actions pl)) [init_plan] = true
+  /\ side_all "app_" [] (flat_map p_actions [init_plan]) = true.
+Proof. repeat split; vm_compute; reflexivity. Qed.
+
+(* (P) the former D8 witness (prefix "app_", one table, one stored migration): diff and sql agree *)
+Theorem C13_sql_prefix_witness :
+  pj_prefix P_prefix = "app_"
+  /\ cmd_diff P_prefix = Ok DiffNone /\ cmd_sql P_prefix = Ok SqlNone
+  /\ exists b,
+       cmd_sql (mkProject (pj_config P_prefix) [("user.json", user_table false)] (pj_migrations P_prefix))
+       = Ok (SqlRender 2 [ModifyColumnNullable "app_user" "email" false None] b)
+       /\ map t_name b = ["app_user"].
+Proof. exact sql_prefix_witness. Qed.
+Print Assumptions C13_sql_prefix_witness.
+Check C13_sql_prefix_witness :
+  pj_prefix P_prefix = "app_"
+  /\ cmd_diff P_prefix = Ok DiffNone /\ cmd_sql P_prefix = Ok SqlNone
+  /\ exists b,
+       cmd_sql (mkProject (pj_config P_prefix) [("user.json", user_table false)] (pj_migrations P_prefix))
+       = Ok (SqlRender 2 [ModifyColumnNullable "app_user" "email" false None] b)
+       /\ map t_name b = ["app_user"].
 
 (* ------------------------------------------------------------------ (P) status "synchronized" iff diff finds nothing (D7 repaired by b3fae31) *)
 Theorem C13_status_sync_iff_no_diff : forall P,
@@ -259,32 +300,25 @@ Proof.
   split; [reflexivity|]. intros n q [H|[]]. inversion H; subst. exists FJson. vm_compute. reflexivity.
 Qed.
 
-(* ------------------------------------------------------------------ (P) what revision writes can be loaded again (D6 repaired by 446c8b4) *)
-(* unfilled a = the action lacks a required fill_with (AddColumn NOT NULL without default, or NOT NULL change);
-   enum_free a = validate_migration_plan does not look at enum values for this action *)
+(* ------------------------------------------------------------------ (P) what revision writes can be loaded again (446c8b4, 06565a6) *)
+(* for every project, message, --fill-with list and environment (no hypothesis excluding bad fill values any more):
+   the written plan passes the validation the loader applies, and lacks no fill value *)
 Theorem C13_revision_output_loadable : forall P m f env file p,
   cmd_revision P m f env = Ok (RevWrote file p) ->
-  (forall a, In a (p_actions p) -> unfilled a = false)
-  /\ (validate_migration_plan p = Ok tt
-      \/ ((exists a, In a (p_actions p) /\ enum_free a = false)
-          /\ exists t c x, validate_migration_plan p = Err (VInvalidEnumDefault t c x)))
-  /\ ((forall a, In a (p_actions p) -> enum_free a = true) -> validate_migration_plan p = Ok tt).
+  validate_migration_plan p = Ok tt
+  /\ (forall a, In a (p_actions p) -> unfilled a = false).
 Proof. exact revision_output_loadable. Qed.
 Print Assumptions C13_revision_output_loadable.
 Check C13_revision_output_loadable : forall P m f env file p,
   cmd_revision P m f env = Ok (RevWrote file p) ->
-  (forall a, In a (p_actions p) -> unfilled a = false)
-  /\ (validate_migration_plan p = Ok tt
-      \/ ((exists a, In a (p_actions p) /\ enum_free a = false)
-          /\ exists t c x, validate_migration_plan p = Err (VInvalidEnumDefault t c x)))
-  /\ ((forall a, In a (p_actions p) -> enum_free a = true) -> validate_migration_plan p = Ok tt).
+  validate_migration_plan p = Ok tt
+  /\ (forall a, In a (p_actions p) -> unfilled a = false).
 
-(* non-vacuity: the old D6 witness now gets the default as fill value, and every view works afterwards *)
+(* non-vacuity: the old D6 witness gets the default as fill value, and every view works afterwards *)
 Example C13_revision_output_loadable_nonvacuous :
   exists file p,
     cmd_revision P_defaulted "tighten" [] env0 = Ok (RevWrote file p)
     /\ p_actions p = [ModifyColumnNullable "user" "email" false (Some "'x'")]
-    /\ validate_migration_plan p = Ok tt
     /\ cmd_diff (step_revision P_defaulted "tighten" [] env0) = Ok DiffNone
     /\ cmd_status (step_revision P_defaulted "tighten" [] env0) = Ok StSync.
 Proof. do 2 eexists. split; [vm_compute; reflexivity|]. repeat split; vm_compute; reflexivity. Qed.
@@ -292,29 +326,37 @@ Proof. do 2 eexists. split; [vm_compute; reflexivity|]. repeat split; vm_compute
 (* (P) and the extended history stays loadable, so log keeps showing what the runtime runs *)
 Theorem C13_revision_keeps_history_loadable : forall P m f env file p,
   cmd_revision P m f env = Ok (RevWrote file p) ->
-  validate_migration_plan p = Ok tt ->
   validate_files (pj_migrations (step_revision P m f env)) = Ok tt
   /\ exists plans, load_migrations (step_revision P m f env) = Ok plans.
 Proof. exact revision_keeps_history_loadable. Qed.
 Print Assumptions C13_revision_keeps_history_loadable.
 Check C13_revision_keeps_history_loadable : forall P m f env file p,
   cmd_revision P m f env = Ok (RevWrote file p) ->
-  validate_migration_plan p = Ok tt ->
   validate_files (pj_migrations (step_revision P m f env)) = Ok tt
   /\ exists plans, load_migrations (step_revision P m f env) = Ok plans.
 
-(* (R) what remains: a --fill-with value for a new enum column is written without being checked *)
-Theorem C13_revision_enum_fill_unchecked_refuted :
-  exists P m f env file p,
-    cmd_revision P m f env = Ok (RevWrote file p)
-    /\ p_actions p = [AddColumn "user" ecol (Some "zzz")]
-    /\ validate_migration_plan p = Err (VInvalidEnumDefault "user" "st" "zzz")
-    /\ cmd_diff (step_revision P m f env) = Err (ELoadMigration file (VInvalidEnumDefault "user" "st" "zzz")).
-Proof. exact revision_enum_fill_unchecked_refuted. Qed.
-Print Assumptions C13_revision_enum_fill_unchecked_refuted.
-Check C13_revision_enum_fill_unchecked_refuted :
-  exists P m f env file p,
-    cmd_revision P m f env = Ok (RevWrote file p)
-    /\ p_actions p = [AddColumn "user" ecol (Some "zzz")]
-    /\ validate_migration_plan p = Err (VInvalidEnumDefault "user" "st" "zzz")
-    /\ cmd_diff (step_revision P m f env) = Err (ELoadMigration file (VInvalidEnumDefault "user" "st" "zzz")).
+(* (P) the refusal added by 06565a6 only ever concerns an enum value, and leaves the project as it is *)
+Theorem C13_revision_refuses_invalid_plan : forall P m f env e,
+  cmd_revision P m f env = Ok (RevRefusedInvalid e) ->
+  (exists t c x, e = VInvalidEnumDefault t c x)
+  /\ step_revision P m f env = P.
+Proof. exact revision_refuses_invalid_plan. Qed.
+Print Assumptions C13_revision_refuses_invalid_plan.
+Check C13_revision_refuses_invalid_plan : forall P m f env e,
+  cmd_revision P m f env = Ok (RevRefusedInvalid e) ->
+  (exists t c x, e = VInvalidEnumDefault t c x)
+  /\ step_revision P m f env = P.
+
+(* (P) formerly refuted: `--fill-with user.st=zzz` for a new enum column is refused, a label is accepted *)
+Theorem C13_revision_enum_fill_refused :
+  cmd_revision P_enum "second" ["user.st=zzz"] env0 = Ok (RevRefusedInvalid (VInvalidEnumDefault "user" "st" "zzz"))
+  /\ step_revision P_enum "second" ["user.st=zzz"] env0 = P_enum
+  /\ exists p, cmd_revision P_enum "second" ["user.st='b'"] env0 = Ok (RevWrote "0002_second.vespertide.json" p)
+               /\ p_actions p = [AddColumn "user" ecol (Some "'b'")].
+Proof. exact revision_enum_fill_refused. Qed.
+Print Assumptions C13_revision_enum_fill_refused.
+Check C13_revision_enum_fill_refused :
+  cmd_revision P_enum "second" ["user.st=zzz"] env0 = Ok (RevRefusedInvalid (VInvalidEnumDefault "user" "st" "zzz"))
+  /\ step_revision P_enum "second" ["user.st=zzz"] env0 = P_enum
+  /\ exists p, cmd_revision P_enum "second" ["user.st='b'"] env0 = Ok (RevWrote "0002_second.vespertide.json" p)
+               /\ p_actions p = [AddColumn "user" ecol (Some "'b'")].
